@@ -83,7 +83,6 @@ func parseAndCompare(c *gen.Case, b []byte, reserialize bool) (vs []pbt.Violatio
 
 func genC02(t *rapid.T) *gen.Case {
 	po := gen.DefaultPop
-	po.NoTrailerPop = true // the serializer never emits trailer fields (known finding of C17)
 	if rapid.IntRange(0, 99).Draw(t, "source") < 25 {
 		tpl, _ := pickFix44(t)
 		po.PresentPct = rapid.SampledFrom([]int{10, 30, 60}).Draw(t, "pct")
@@ -173,7 +172,6 @@ func affixVariants(t *rapid.T, tag string, lbl string) (string, string) {
 
 func genC18(t *rapid.T) *C18Case {
 	po := gen.DefaultPop
-	po.NoTrailerPop = true
 	var c *gen.Case
 	if rapid.IntRange(0, 99).Draw(t, "source") < 20 {
 		tpl, _ := pickFix44(t)
@@ -190,8 +188,8 @@ func genC18(t *rapid.T) *C18Case {
 	for _, x := range tags {
 		inTpl[x] = true
 	}
-	h, b, _ := gen.Wire(c)
-	leaves := append(append([]gen.Leaf{}, h...), b...)
+	h, b, tr := gen.Wire(c)
+	leaves := append(append(append([]gen.Leaf{}, h...), b...), tr...)
 	// allowed insertion points: before a leaf outside any group entry, at the
 	// end, and right after the delimiter field of an entry
 	var allowed []int
@@ -233,8 +231,8 @@ func genC18(t *rapid.T) *C18Case {
 
 // assembleC18 builds the message with REF: framing + model leaves + foreign fields.
 func assembleC18(cc *C18Case) []byte {
-	h, b, _ := gen.Wire(&cc.Case)
-	leaves := append(append([]gen.Leaf{}, h...), b...)
+	h, b, tr := gen.Wire(&cc.Case)
+	leaves := append(append(append([]gen.Leaf{}, h...), b...), tr...)
 	var toks []ref.Tok
 	fi := 0
 	for i := 0; i <= len(leaves); i++ {
